@@ -106,6 +106,81 @@ def check_fill(edges, fills):
     return None
 
 
+def _shape_bins(edges, value):
+    def mk(k):
+        if k == len(edges):
+            return value
+        return [mk(k + 1) for _ in range(len(edges[k]) - 1)]
+    return mk(0)
+
+
+def check_element_history(edges, how, rounds):
+    """the Histogram ELEMENT reused as FillCompute / FillRequest sequences reuse it: fills, compute, reset, fills ...;
+    after every compute the yielded structure must hold exactly the weight filled since the last reset (on top of the
+    initial content), cell by cell, and n_out_of_range the fills that fell outside.  Returns a description or None"""
+    dim = len(edges)
+    e_arg = copy.deepcopy(edges) if dim > 1 else list(edges[0])
+    init = 0
+    try:
+        if how == "bins":
+            init = 2
+            el = Histogram(e_arg, bins=_shape_bins(edges, 2))
+        elif how == "make_bins":
+            init = 3
+            el = Histogram(e_arg, make_bins=lambda: _shape_bins(edges, 3))
+        elif how == "initial_value":
+            init = 5
+            el = Histogram(e_arg, initial_value=5)
+        else:
+            el = Histogram(e_arg)
+    except Exception as e:
+        return "constructor raised %s: %s" % (type(e).__name__, e)
+    exp = _shape_bins(edges, init)
+    if dim == 1:
+        exp = list(exp)
+    noor = 0
+    k = 0
+    for coords, do_reset in rounds:
+        for coord in coords:
+            data = tuple(coord) if dim > 1 else coord[0]
+            k += 1
+            try:
+                if guarded(el.fill, (data, {"k": k}) if k % 2 else data) == "NON-TERMINATION":
+                    return "fill(%r) does not terminate" % (data,)
+            except Exception as e:
+                return "fill(%r) raised %s: %s" % (data, type(e).__name__, e)
+            idx = [ref(c, e) for c, e in zip(coord, edges)]
+            if all(0 <= i < len(e) - 1 for i, e in zip(idx, edges)):
+                sub = exp
+                for i in idx[:-1]:
+                    sub = sub[i]
+                sub[idx[-1]] += 1
+            else:
+                noor += 1
+        try:
+            res = list(el.compute())
+        except Exception as e:
+            return "compute raised %s: %s" % (type(e).__name__, e)
+        if len(res) != 1:
+            return "compute yielded %d values" % len(res)
+        hist = res[0][0] if isinstance(res[0], tuple) else res[0]
+        if hist.bins != exp or hist.n_out_of_range != noor:
+            return ("after %d fills (since the last reset) bins = %r, n_out_of_range = %r; expected %r and %r"
+                    % (len(coords), hist.bins, hist.n_out_of_range, exp, noor))
+        if do_reset:
+            try:
+                el.reset()
+            except Exception as e:
+                return "reset raised %s: %s" % (type(e).__name__, e)
+            exp = _shape_bins(edges, init)
+            noor = 0
+    return None
+
+
+def replay_element(edges, how, rounds):
+    return bool(check_element_history(edges, how, rounds))
+
+
 def flat_sum(b):
     return sum(flat_sum(x) for x in b) if isinstance(b, list) else b
 
@@ -188,33 +263,24 @@ def body(R):
             got = "EXC %s" % type(e).__name__
         R.check(not isinstance(got, str) and list(got) == [ref(c, e) for c, e in zip(coord, edges)], "get_bin_on_value",
                 "get_bin_on_value(%r, %r) = %r" % (coord, edges, got), {"coord": coord, "edges": edges})
-    R.scope("Histogram element fill/compute", "%d histories of 8 fills with and without context; weight conservation" % n_h, False)
+    R.scope("Histogram element: fill / compute / reset histories",
+            "%d histories of 2..3 rounds (each: 0..6 fills with and without context incl. under / overflows, compute, then "
+            "reset or not), constructed from edges alone, with initial bins and with make_bins; after every compute: "
+            "sum(bins) + n_out_of_range == weight filled since the last reset (+ the initial content), per-cell reference" % n_h, False)
     for _ in range(n_h):
         dim = rng.randint(1, 2)
         edges = [gen_edges(rng)[:rng.randint(2, 5)] for _ in range(dim)]
-        el = Histogram(copy.deepcopy(edges) if dim > 1 else list(edges[0]))
-        n = 0
-        hung = False
-        for k in range(8):
-            coord = [rng.choice(e + [e[0] - 1, e[-1] + 1, (e[0] + e[-1]) / 2]) for e in edges]
-            data = tuple(coord) if dim > 1 else coord[0]
-            try:
-                if guarded(el.fill, (data, {"k": k}) if k % 2 else data) == "NON-TERMINATION":
-                    hung = True
-                    break
-            except Exception:
-                hung = True
-                break
-            n += 1
-        R.case(True)
-        if hung:
-            R.check(False, "Histogram.weight", "Histogram element over %r: fill(%r) hangs or raises" % (edges, data), {"edges": edges})
-            continue
-        res = list(el.compute())
-        hist = res[0][0]
-        tot = flat_sum(hist.bins) + hist.n_out_of_range
-        R.check(len(res) == 1 and tot == n, "Histogram.weight", "Histogram element: sum(bins)+n_out_of_range = %r after %d fills" % (tot, n),
-                {"edges": edges})
+        how = rng.choice(["edges", "edges", "bins", "make_bins", "initial_value"])
+        rounds = []
+        for _r in range(rng.randint(2, 3)):
+            coords = []
+            for k in range(rng.randint(0, 6)):
+                coords.append([rng.choice(e + [e[0] - 1, e[-1] + 1, (e[0] + e[-1]) / 2]) for e in edges])
+            rounds.append((coords, rng.random() < 0.7))
+        bad = check_element_history(edges, how, rounds)
+        R.case(True, {"edges": edges, "how": how})
+        R.check(not bad, "Histogram.weight", "Histogram element (%s) over %r: %s" % (how, edges, bad),
+                {"edges": edges, "how": how, "rounds": rounds}, {"fn": "replay_element", "args": [edges, how, rounds]})
     R.scope("check_edges_increasing", "edge arrays of length 0..4 over {0,1,2} in 1 and 2 dimensions: LenaValueError iff not strictly increasing or too short", True)
     for ln in range(0, 5):
         for arr in itertools.product([0, 1, 2], repeat=ln):
@@ -236,6 +302,6 @@ def body(R):
 
 
 if __name__ == "__main__":
-    R = Run("C06", {"replay_1d": replay_1d, "replay_fill": replay_fill})
+    R = Run("C06", {"replay_1d": replay_1d, "replay_fill": replay_fill, "replay_element": replay_element})
     sys.exit(R.main(body, "random and exhaustive edge arrays with float corner coordinates; a case is non-trivial when the "
                           "real function was executed and compared with the reference; distinct by construction of the enumeration"))
